@@ -449,3 +449,38 @@ def many_lines_real(k, kind, cap, nchunks, lim=410):
     if not same_json(got, msgs):
         return "main-stream-differs-under-back-pressure"
     return "ok"
+
+
+_sizes.size_cases(70000, extra=_sizes.ENV_SIZES)
+_sizes.size_cases(140000, extra=_sizes.ENV_SIZES)
+
+
+def long_line(k, pat, cutsel, crlf, lim=70000):
+    """size dimension: a line carrying a string of c-1, c, c+1 characters (c: integer constants of the source and
+    environment sizes) followed by a short line; cut (0) three bytes before its end, (1) in the middle, (2) into
+    8 KiB reads, (3) into 1000-byte reads up to 64 reads then the rest, (4) not at all"""
+    n = _sizes.pick(_sizes.size_cases(lim, extra=_sizes.ENV_SIZES), k)
+    m1 = {"jsonrpc": "2.0", "id": 1, "result": {"t": _sizes.long_text(n, pat)}}
+    m2 = {"jsonrpc": "2.0", "method": "notifications/message", "params": {"d": "after"}}
+    nl = b"\r\n" if crlf else b"\n"
+    head = _json.dumps(m1, ensure_ascii=False).encode("utf-8")
+    text = head + nl + _json.dumps(m2).encode("utf-8") + nl
+    if cutsel == 0:
+        c = max(len(head) - 3, 0)
+        parts = [text[:c], text[c:]]
+    elif cutsel == 1:
+        c = len(head) // 2
+        parts = [text[:c], text[c:]]
+    elif cutsel == 2:
+        parts = [text[a:a + 8192] for a in range(0, len(text), 8192)]
+    elif cutsel == 3:
+        parts = [text[a:a + 1000] for a in range(0, min(len(text), 64000), 1000)] + ([text[64000:]] if len(text) > 64000 else [])
+    else:
+        parts = [text]
+    c, _ = _run_reader(parts, record_json=False)
+    main = [dump(m) for m in c._incoming_send.items]
+    if len(main) != 2:
+        return "long-line-lost-or-split:%d" % len(main)
+    if not same_json(main, [m1, m2]):
+        return "main-stream-differs"
+    return "ok"
